@@ -1,6 +1,8 @@
 SPECIFICATION TraceSpec
 CONSTANTS
   Groups = {"g1", "g2"}
+  GroupOnFollower = FALSE
+  OnlyOpenEnded = FALSE
   CleanupById = FALSE
 POSTCONDITION Done
 CHECK_DEADLOCK FALSE
